@@ -726,7 +726,10 @@ static int parse_single_cert(psPool_t *pool, const unsigned char **pp,
     }
     /* The whole list of certs could be > 64K bytes, but we still
        restrict individual certs to 64KB */
-    if (oneCertLen > 0xFFFF)
+    /* ... header included: binLen and the DER offsets kept in the
+       certificate are 16-bit and are computed from the whole encoding. */
+    if (oneCertLen > 0xFFFF ||
+        oneCertLen + (uint32_t) (p - certStart) > 0xFFFF)
     {
         psAssert(oneCertLen <= 0xFFFF);
         func_rc = PS_FAILURE;
